@@ -79,7 +79,7 @@ MANIFEST = {
             "own instance, and every baseline value attached by RolloutBaseline.wrap_dataset (rollout batch 4/7/64, loader "
             "batch 3/5, shuffled or not, incl. WarmupBaseline) equalled the monitor's recomputation of the baseline "
             "policy's greedy reward on that instance, also after the live policy took optimizer steps, after the baseline was "
-            "rebuilt and the same set wrapped again, and on every training batch of real multi-epoch fits. Exploration over sizes x batch sizes x classes x histories.",
+            "rebuilt and the same set wrapped again, and on every training batch of real multi-epoch fits. Exploration over sizes x batch sizes x classes x histories. Also: file-backed val/test sets through setup()/val_dataloader() over several setup passes, named multi-file loaders, shuffled training loader next to ordered val/test loaders, extra keys of int64 / float64 / bool.",
     "note": "Fingerprints: int64 uid per instance + sha1 of the source tensors before/after (mutation sanitizer).",
     "technique": "runtime monitoring: fingerprinted-instance tracing through the real dataset/loader/baseline-wrapping path with recomputation of the attached baseline values",
     "design_ref": "DESIGN.md section 4 / C17",
